@@ -2,7 +2,7 @@
 from props import histcorr
 
 MODEL_DEPS = ['CheckLib']
-KERNELS = ('CacheEdge', 'MemoryCache', 'StaticHash', 'FunctionEdge', 'EvictionCache')
+KERNELS = ('CacheEdge', 'MemoryCache', 'StaticHash', 'FunctionEdge', 'EvictionCache', 'CachedColumn', 'CacheColumns')
 TRUSTED = ['Coq 8.16.1 kernel; vm_compute in case shards',
            'tools/translate.py: CacheEdge.evaluate, MemoryCache.get/set/clear',
            'hand-written: Model/Store.v (dict / pylru / digest store), tied by the history correspondence',
@@ -29,4 +29,5 @@ def run(ctx):
     res['oracle_checks'] += n
     res['evaluations'] += sum(len(c['ops']) for c in rc['cases'])
     res['distribution']['column_histories'] = len(rc['cases'])
-    return res
+    from props import colmodel
+    return colmodel.add(ctx, res, 'C04')
